@@ -17,6 +17,8 @@ LAY = {
     44: [("v", 4), ("s", 1), ("v", 9), ("v", 9), ("g", 1), ("v", 10), ("s", 1), ("v", 11), ("s", 1), ("v", 2), ("s", 1), ("v", 6)],
     45: [("s", 1), ("v", 2), ("s", 1), ("v", 2), ("s", 1), ("v", 2), ("s", 1), ("v", 2), ("s", 1), ("v", 2), ("s", 1), ("g", 1), ("v", 9),
          ("s", 1), ("v", 11), ("s", 1), ("v", 12), ("r", 5)],
+    # BDS 5,3 is not a candidate of infer(); its format test is50-like and public (commb.is53)
+    53: [("s", 1), ("g", 1), ("v", 10), ("s", 1), ("v", 10), ("s", 1), ("v", 9), ("s", 1), ("v", 12), ("s", 1), ("g", 1), ("v", 8)],
 }
 ISFNS = ["is10", "is17", "is20", "is30", "is40", "is44", "is45", "is50", "is53", "is60"]
 
@@ -69,6 +71,11 @@ def rand_vals(rng, reg, envelope=True):
         vals[5] = rng.randrange(0, 240) if vals[4] == 0 else rng.randrange(1024 - 320, 1024)
     if reg == 45:
         vals[12] = rng.randrange(0, 240) if vals[11] == 0 else rng.randrange(512 - 320, 512)
+    if reg == 53:
+        vals[4] = rng.randrange(0, 501)
+        vals[6] = rng.randrange(0, 126)
+        vals[8] = rng.randrange(0, 1001)
+        vals[11] = rng.randrange(0, 126) if vals[10] == 0 else rng.randrange(256 - 125, 256)
     # status consistency: a cleared status bit forces its value (and sign) to zero
     st = None
     for idx, (kind, w) in enumerate(lay):
@@ -110,6 +117,19 @@ def vectors(ctx):
             df = (20, 21)[k % 2]
             ac = rng.choice([0, alt_q(rng.randrange(0, 45) * 1000), alt_q(rng.randrange(0, 1800) * 25)]) if df == 20 else None
             add_all(commb_frame(rng, df, mb, ac), ["env", reg, k], isfns=(k % 3 == 0))
+    for k in range(ctx.pick(60, 1500)):
+        add_all(commb_frame(rng, 20 + k % 2, pack(53, rand_vals(rng, 53))), ["env", 53, k], isfns=(k % 3 == 0), infer=(k % 3 == 0))
+        base = pack(53, rand_vals(rng, 53))
+        for bit in range(56):
+            if ctx.quick and (bit + k) % 4:
+                continue
+            V.append({"fn": "commb.is53", "frame": commb_frame(rng, 20 + bit % 2, base ^ (1 << (55 - bit)), 0), "case": ["flip1", 53, k, bit]})
+    for ias in (499, 500, 501):
+        for mach in (124, 125, 126):
+            for tas in (999, 1000, 1001):
+                for vr in (124, 125, 126, 256 - 126, 256 - 125):
+                    V.append({"fn": "commb.is53", "frame": commb_frame(rng, 21, pack(53, [1, 0, 100, 1, ias, 1, mach, 1, tas, 1, 1 if vr > 127 else 0, vr])),
+                              "case": ["thr53", ias, mach, tas, vr]})
     # (2) single-rule violations / thresholds: start from an in-envelope payload and flip one bit or bump one field
     for reg in (40, 50, 60, 44, 45):
         for k in range(ctx.pick(40, 800)):
